@@ -7,4 +7,11 @@ import SquidModel.Properties.C11
 #print axioms SquidModel.C11.auth_nocache_always_revalidated
 #print axioms SquidModel.C11.forbidden_never_served_from_cache
 #print axioms SquidModel.C11.auth_always_reaches_origin
+#print axioms SquidModel.C11.wellformed_lines_no_store_recognised
+#print axioms SquidModel.C11.wellformed_lines_private_recognised
+#print axioms SquidModel.C11.directive_spelling_recognised
+#print axioms SquidModel.C11.wellformed_forbidden_response_never_served_partial
+#print axioms SquidModel.C11.wellformed_request_no_store_never_served_partial
 #print axioms SquidModel.C11.quote_leak_hides_no_store_counterexample
+#print axioms SquidModel.C11.not_modified_no_store_counterexample
+#print axioms SquidModel.C11.not_modified_forbidden_not_reused_partial
